@@ -39,6 +39,23 @@ def g_real0(lo=-1.5, hi=1.5, p0=0.3):
     return g
 
 
+def g_fixed(values):
+    def g(rng, shape):
+        return list(values)
+    return g
+
+
+def g_cycle(rows):
+    """successive calls return the successive entries of `rows` (one call per sample when the parameter is batched)"""
+    state = [0]
+
+    def g(rng, shape):
+        v = rows[state[0] % len(rows)]
+        state[0] += 1
+        return list(v)
+    return g
+
+
 def g_simplex():
     def g(rng, shape):
         assert len(shape) == 1
@@ -297,6 +314,22 @@ def bdsk_spec(tree, n=3, m=1, rho=False, times=False, dates=None):
         return d
     key = f"BDSKModel/{tree}/n{n}/m{m}" + ("/rho" if rho else "") + ("/dated" if dates else "")
     return Spec(key, params, js, "bdsk")
+
+
+def bdsk_coincide_spec():
+    """Serially sampled tips with rho-sampling, epochs that differ between samples (the origin carries the sample
+    dimension) and a coincidence BETWEEN samples: total heights 6 and 8, two equal epochs (boundaries at 3 and 4), a tip
+    of height 2 — at forward time 6 - 2 = 4 in the first sample, which is the epoch boundary of the second."""
+    n, m, dates = 3, 2, [2.0, 0.0, 2.0]
+    params = [("heights", ((n - 1,), g_fixed([3.0, 5.0]))),
+              ("R", ((m,), g_pos(1.2, 3.0))), ("delta", ((m,), g_pos(0.5, 2.0))), ("s", ((m,), g_unit(0.1, 0.6))),
+              ("origin", ((1,), g_cycle([[1.0], [3.0]]))), ("rho", ((1,), g_unit(0.2, 0.8)))]
+
+    def js(v):
+        return {"id": "bdsk", "type": "BDSKModel", "tree_model": tree_json("time", n, v, dates),
+                "R": P("R", v["R"]), "delta": P("delta", v["delta"]), "s": P("s", v["s"]),
+                "origin": P("origin", v["origin"]), "origin_is_root_edge": True, "rho": P("rho", v["rho"])}
+    return Spec("BDSKModel/time/n3/m2/rho/dated/coinciding-epochs", params, js, "bdsk")
 
 
 def gmrf_spec(variant, n=3, dim=4):
@@ -599,6 +632,7 @@ def catalogue(tier):
     S.append(bdsk_spec("time", 3, 2))
     S.append(bdsk_spec("ratio", 3, 3, rho=True))
     S.append(bdsk_spec("ratio", 3, 2, dates=[0.0, 0.5, 1.0]))
+    S.append(bdsk_coincide_spec())
     if thorough:
         S.append(bdsk_spec("ratio", 4, 4, rho=True, dates=[0.0, 0.0, 0.4, 1.0]))
     # GMRF, CTMC scale, tree prior, tree model
